@@ -1,10 +1,13 @@
 (* Properties_C09.v — C09: linear invariants of the mechanism are conserved.
    Proved here (every commutative ring): the forcing lies in the column space of the
    stoichiometric matrix, so every conservation law w annihilates it, for every state and rate
-   constants.  The propagation through the stages of the integrators (w . K_i = 0) is checked on
-   the implementation by the conservation oracle over random conservative mechanisms; it is not
-   yet a theorem (see DESIGN 6 C09). *)
-From Model Require Import Base ProcessSetM ProcessSetProofs CompositionProofs.
+   constants.  And: the Rosenbrock integrator propagates every such invariant through every stage, every attempt
+   (accepted or rejected) and every kind of exit, for any coefficient table and any history, given what the two
+   policies guarantee in exact arithmetic: the forcing is annihilated by w (the first theorem) and the linear solve
+   with alpha I - J, w^T J = 0, maps a right-hand side with w . rhs = 0 to a solution with w . x = 0.
+   Backward Euler clips negative iterates inside its Newton loop and is excluded by the property in that case; its
+   conservation is checked on the implementation (oracle with the clip hook). *)
+From Model Require Import Base ProcessSetM ProcessSetProofs CompositionProofs Rosenbrock RosScratchProofs.
 From Coq Require Import Ring.
 Local Open Scope nat_scope.
 
@@ -15,3 +18,21 @@ Theorem C09_forcing_conserves_linear_invariants :
     nsum N nspec (fun s => nmul N (w s) (mass_action N l k y s)) = n0 N.
 Proof. exact forcing_conserves. Qed.
 Print Assumptions C09_forcing_conserves_linear_invariants.
+
+Theorem C09_rosenbrock_propagates_linear_invariants :
+  forall (N : Num) ltb leb nabs isnan isinf is_zero absorbed pow_inv ten delta_min
+         (V M F : Type) vaxpy vzero mzero add_diag forcing negjac in_place factor_sep solve_sep factor_ip solve_ip nerr
+         (p : params N),
+    ring_theory (n0 N) (n1 N) (nadd N) (nmul N) (nsub N) (nopp N) eq ->
+    forall (dotw : V -> T N),
+      (forall a x y, dotw (vaxpy a x y) = nadd N (nmul N a (dotw x)) (dotw y)) ->     (* w . is linear *)
+      (forall y z, dotw (forcing y z) = n0 N) ->                                       (* w . f(y) = 0 *)
+      (forall lu rhs, dotw rhs = n0 N -> dotw (solve_sep lu rhs) = n0 N) ->            (* exact conservative solves *)
+      (forall lu rhs, dotw rhs = n0 N -> dotw (solve_ip lu rhs) = n0 N) ->
+      forall fuel time_step (s : rstate V M F),
+        p_stages p <= length (sK s) ->
+        dotw (sY (r_s (ros_solve N ltb leb nabs isnan isinf is_zero absorbed pow_inv ten delta_min V M F vaxpy vzero mzero
+                                 add_diag forcing negjac in_place factor_sep solve_sep factor_ip solve_ip nerr p
+                                 fuel time_step s))) = dotw (sY s).
+Proof. exact ros_conserves_linear_invariants. Qed.
+Print Assumptions C09_rosenbrock_propagates_linear_invariants.
